@@ -82,6 +82,8 @@ STATEMENT_STATUS: Dict[str, str] = {
     "a85decode_translated": "proved: one iteration of the model's a85decode loop and its final padding step = the code "
         "translated from the source of base64.a85decode of the running interpreter (defaults foldspaces=adobe=False, "
         "ignorechars, digit range, group length, 85*acc+(x-33), z group, b'u'*4, 4-len(curr))",
+    "file_chain_rt": "proved: the property in one statement - file bytes -> stream branch (Length = |z|) -> PDFStream.decode "
+        "of a chain of any length gives exactly the payload",
     "predictor_translated": "proved: the model's predictor dispatch = the translated `pred == 1 / == 2 / >= 10 / else` chain of "
         "PDFStream._decode with the translated Colors / Columns / BitsPerComponent defaults",
     "stream_read_exact": "proved: whole stream branch (streamRead), Length = |payload|: rawdata = payload (any bytes) and the "
@@ -1012,6 +1014,35 @@ def check_streamx(ctx, batch, inp, from_replay: bool = False) -> None:
     else:
         exp = "B " + hx(payload) + " " + str(where)       # data = Length bytes, parser resumes at the marker
     ctx.branch("streamx:domain:" + ("fallback" if fb else "length"))
+    if got != exp and not from_replay and len(payload) > 1:
+        # shrink the payload (Length follows it when it was the payload length)
+        def variant(sub: bytes):
+            inp2 = dict(inp)
+            inp2["payload"] = hx(sub)
+            if inp["length"] == len(payload):
+                inp2["length"] = len(sub)
+                inp2["dic"] = hx(b"<</Length %d>>" % len(sub) + dic[dic.rfind(b">>") + 2:])
+            return inp2
+
+        def outcome(inp2):
+            h2, d2, e2, p2, t2, q2 = (unhx(inp2[k]) for k in ("head", "dic", "eol", "payload", "tail", "post"))
+            if fb and ENDSTREAM in p2 + t2:
+                return None
+            if e2 == b"\r" and p2[:1] == b"\n":
+                return None
+            buf2 = h2 + d2 + b"stream" + e2 + p2 + t2 + q2
+            w2 = len(h2) + len(d2) + 6 + len(e2) + len(p2 + t2)
+            exp2 = "B " + hx(p2 + t2 if fb else p2) + " " + str(w2)
+            return streamx_impl(buf2, len(h2), fb), exp2
+
+        def still(sub: bytes) -> bool:
+            r = outcome(variant(sub))
+            return r is not None and r[0] != r[1]
+        small = shrink_bytes(payload, still)
+        r = outcome(variant(small))
+        if small != payload and r is not None and r[0] != r[1]:
+            inp = variant(small)
+            got, exp = r
     if got != exp:
         ctx.fail(C.Failure("stream branch: rawdata / resume position wrong (%s mode)" % ("fallback" if fb else "Length"),
                            {"kind": "streamx", **inp}, exp[:400], got[:400],
